@@ -130,7 +130,9 @@ func init() {
 			// map, the settings map and the list inside are the same objects)
 			cs.Shared = map[string]sb.V{
 				"defaults":    {K: "hash", KS: []string{"lang"}, E: []sb.V{{K: "str", S: "en"}}},
-				"shared_list": {K: "arr", E: []sb.V{{K: "num", N: 1}, {K: "str", S: "two"}}},
+				// (a list made with append: there is room behind its last element,
+				// which nobody but its owner may write to)
+				"shared_list": {K: "arrcap", E: []sb.V{{K: "num", N: 1}, {K: "str", S: "two"}}},
 				"shared_per":  {K: "ptr", E: []sb.V{{K: "person", S: "Pat", N: 40}}},
 			}
 			cs.Templates["sharedcfg.html"] = "{% set o = defaults|merge({('k' ~ x): p}) %}{{ o|keys|sort|join(',') }}|{% for k, v in defaults %}{{ k }}={{ v }};{% endfor %}|{{ shared_list|merge([x])|join('+') }}|{{ shared_list|reverse|join }}|{{ shared_list|sort|join }}|{{ shared_per.Name }}{{ shared_per.Greet('hi ') }}|{{ defaults|length }}{{ shared_list|length }}"
